@@ -65,11 +65,13 @@ WS_CLOSE = {"type": "websocket.close", "code": 1000}
 WS_HS = {"type": "websocket.http.response.start", "status": 401, "headers": [(b"x-w", b"1")]}
 WS_HB = {"type": "websocket.http.response.body", "body": b"no", "more_body": False}
 WS_HBM = {"type": "websocket.http.response.body", "body": b"mo", "more_body": True}
+WS_HB_STR = {"type": "websocket.http.response.body", "body": "text, not bytes", "more_body": False}
+WS_HB_INT = {"type": "websocket.http.response.body", "body": 5, "more_body": False}
 # the chosen subprotocol becomes a response header value: it is application-supplied data like any other header
 WS_ACCEPT_SUB = {"type": "websocket.accept", "subprotocol": "chat"}
 WS_ACCEPT_SUBCTL = {"type": "websocket.accept", "subprotocol": "chat\r\nx-injected: yes"}
 WS_ALPHABET = [("A", WS_ACCEPT), ("A_SUB", WS_ACCEPT_SUB), ("A_SUBCTL", WS_ACCEPT_SUBCTL), ("TX", WS_TEXT), ("BY", WS_BYTES), ("BADTX", WS_BADTEXT), ("C", WS_CLOSE), ("HS", WS_HS),
-               ("HB", WS_HB), ("HBM", WS_HBM), ("U", U)]
+               ("HB", WS_HB), ("HBM", WS_HBM), ("U", U), ("HB_STR", WS_HB_STR), ("HB_INT", WS_HB_INT)]
 
 
 def _script(msgs):
@@ -419,6 +421,10 @@ def ws_automaton(msgs):
                 verdict = "invalid"  # "a second response start"
             else:
                 verdict = "unjudged"
+        elif t == "websocket.http.response.body" and not isinstance(m.get("body", b""), (bytes, bytearray, memoryview)):
+            # a body that is not bytes (as for http.response.body): the message is refused as a whole - the response head that would go
+            # out with the first body message stays where it is
+            verdict = "invalid" if state in ("HS_PENDING", "RESPONSE") else "unjudged"
         elif t == "websocket.http.response.body":
             if state == "HS_PENDING":
                 verdict = "valid"
